@@ -7,14 +7,19 @@ from . import paths as P
 from . import typestate
 
 EXPLANATION = (
-    "Decides structural necessary conditions of C10 from MIR: (R1) option-field typestate of the session progress: at every "
-    "take().unwrap() the tracked Option is Some on all paths, and either the acceptor's run() restores it on every exit or no "
-    "other method unwraps the field (forward dataflow {Some,None,Top}); (R2) protocol arms of BobState::run over {Init,Sync,Abort} "
-    "x {namespace None,Some}: (Init,None) and (Sync,Some) proceed, the other arms return Err, none is a silent no-op; run_alice: "
-    "Init => Err, Abort => RemoteAbort error; (R3) a declined request changes nothing: on the Reject edge an Abort frame is sent "
-    "and no store-handle method is called; every sync_process_message call is dominated by the Allow edge or by namespace==Some; "
-    "(R4) the sync gate (shared with C14.R2); (R5) the session functions' panic-capable sites are audited (shared with C09.R3). "
-    "NOT decided: 'never waits forever' (liveness over schedules), QUIC stream behaviour, mirrored counters as values."
+    "Decides C10's bounded-enumeration clauses from MIR by abstract evaluation (no repository code is run): the accepting "
+    "side (BobState::new, run, into_outcome) and the initiating side (run_alice) are interpreted over their MIR, with every "
+    ".await driven to completion and the environment scripted by an oracle: the frames the peer sends (all sequences up to "
+    "length 2 (quick) / 3 (thorough) over {Init, Sync, Abort, undecodable}, then close), the accept callback's verdict, the "
+    "outcome of each store-handle call (reply / done / error) and whether sending succeeds. (R1) every script returns Ok or "
+    "Err - a panic or a non-evaluable construct is a violation - and into_outcome is evaluated on the state each run leaves "
+    "behind; (R2) result and effects equal the protocol written from the property text (handshake first and once, callback "
+    "asked before anything is processed, Abort / garbage / early close reported as errors, progress threaded through the "
+    "calls, first local failure ends the session with an error); (R3) a declining callback never reaches the store handle; "
+    "(R4) the sync gate (shared with C14.R2); (R5) panic-capable sites of the remaining session plumbing (handle_connection, "
+    "connect_and_sync) are audited, the codec and session functions being discharged by the evaluated tables. "
+    "NOT decided: 'never waits forever' when a future never completes (liveness), QUIC stream behaviour, mirrored counters as "
+    "values, interleaving with other actor messages."
 )
 ASSUMPTIONS = ["tokio_util FramedRead/FramedWrite and the QUIC streams are trusted", "the object invariant 'progress is Some' holds when a BobState is created (checked: BobState::new)"]
 
@@ -22,197 +27,295 @@ RUN = "net::codec::BobState::run::{closure#0}"
 ALICE = "net::codec::run_alice::{closure#0}"
 
 
+BOB = "net::codec::BobState::run"
+ALICE_FN = "net::codec::run_alice"
+MSG = "net::codec::Message"
+BS = "net::codec::BobState"
+
+
+def _mk_frame(E, f, fr, i):
+    if fr == "Init":
+        return E.variant(f, MSG, "Init", namespace=E.Tok("ns"), message=E.Tok("init-msg"))
+    if fr == "Sync":
+        return E.variant(f, MSG, "Sync", E.Tok("sync-msg%d" % i))
+    return E.variant(f, MSG, "Abort", reason=E.Tok("abort-reason"))
+
+
+def eval_bob(f, frames, accept, proc, send_ok):
+    """the acceptor (BobState::run, then into_outcome) evaluated (K6', awaits driven to completion) against a script:
+    frames the peer sends (Init/Sync/Abort/ioerr = undecodable, then end of stream), the accept callback's verdict,
+    the outcome of each sync_process_message call (reply/done/err) and whether sending succeeds.
+    Returns (result class, event list, final state rendering, into_outcome result)."""
+    from . import feval as E
+    st = {"fi": 0, "pi": 0, "log": []}
+
+    def oracle(kind, name, payload, site):
+        if kind == "call":
+            t, args, it = payload
+            names = [it.tokname(a) for a in args]
+            if name == "new" and callee_matches(t, r"FramedRead"):
+                return E.Tok("framed-reader")
+            if name == "new" and callee_matches(t, r"FramedWrite"):
+                return E.Tok("framed-writer")
+            if name == "sync_process_message":
+                st["log"].append(("process", names[1], names[2], names[-1]))
+                return E.Tok("process-future")
+            if (t["f"].get("path") or "").startswith("actor::SyncHandle::") and name not in ("into_future", "poll", "clone"):
+                st["log"].append(("handle." + name,))
+                return E.Tok("handle-future")
+            return None
+        if kind == "await":
+            t, args, it = payload
+            if name.startswith("next(framed-reader"):
+                i = st["fi"]
+                st["fi"] += 1
+                if i >= len(frames):
+                    return E.NONE
+                if frames[i] == "ioerr":
+                    return E.Some(E.Err(E.Tok("io-error")))
+                return E.Some(E.Ok(_mk_frame(E, f, frames[i], i)))
+            if name.startswith("call(") or name.startswith("call_mut(") or name.startswith("call_once("):
+                nsset = E.describe(E.field(f, it.heap["self"], BS, "namespace"), f)
+                st["log"].append(("accept_cb", name[name.index(",(") + 2:-2] if ",(" in name else name, "namespace-field=" + nsset))
+                return E.variant(f, "net::AcceptOutcome", "Allow") if accept == "Allow" else E.variant(f, "net::AcceptOutcome", "Reject", E.Tok("reject-reason"))
+            if name == "process-future":
+                k = st["pi"]
+                st["pi"] += 1
+                r = proc[k] if k < len(proc) else "done"
+                if r == "err":
+                    return E.Err(E.Tok("process-error"))
+                return E.Ok(("tuple", [E.Some(E.Tok("reply%d" % k)) if r == "reply" else E.NONE, E.Tok("progress%d" % (k + 1))]))
+            if name.startswith("send(framed-writer"):
+                st["log"].append(("send", name[len("send(framed-writer,"):-1]))
+                return E.Ok(E.UNIT) if send_ok else E.Err(E.Tok("send-error"))
+        return None
+    heap = {"self": E.struct(f, BS, namespace=E.NONE, peer=E.Tok("peer"), progress=E.Some(E.Tok("progress0")))}
+    try:
+        out, hp, ev = E.run_async(f, BOB, [E.href("self"), E.Tok("writer"), E.Tok("reader"), E.Tok("sync"), E.Tok("accept_cb")], heap, oracle)
+    except E.Unsupported as e:
+        return "UNSUPPORTED-FORM: %s" % e, st["log"], None, None
+    if out is not None and out[0] == "diverge":
+        return "PANIC", st["log"], None, None
+    d = E.describe(out, f)
+    res = "Ok(ns)" if d == "Ok(ns)" else ("Err(Abort)" if d.startswith("Err(Abort") else ("Err" if d.startswith("Err") else d))
+    final = hp["self"]
+    try:
+        o2, _, _ = E.run(f, BS + "::into_outcome", [final], {})
+        io = "PANIC" if (o2 is not None and o2[0] == "diverge") else E.describe(o2, f)
+    except E.Unsupported as e:
+        io = "UNSUPPORTED-FORM: %s" % e
+    return res, st["log"], E.describe(final, f), io
+
+
+def ref_bob(frames, accept, proc, send_ok):
+    """the acceptor as the property describes it: (result class, events)"""
+    ns = False
+    ev = []
+    pi = 0
+    for i, fr in enumerate(frames):
+        if fr == "ioerr":
+            return "Err", ev
+        if fr == "Init" and not ns:
+            ev.append(("accept_cb", "ns,peer", "namespace-field=None"))
+            if accept != "Allow":
+                ev.append(("send", "Abort(reject-reason)"))
+                return ("Err(Abort)" if send_ok else "Err"), ev
+            ev.append(("process", "ns", "init-msg", "progress%d" % pi))
+            ns = True
+        elif fr == "Sync" and ns:
+            ev.append(("process", "ns", "sync-msg%d" % i, "progress%d" % pi))
+        else:
+            return "Err", ev
+        r = proc[pi] if pi < len(proc) else "done"
+        pi += 1
+        if r == "err":
+            return "Err", ev
+        if r == "reply":
+            ev.append(("send", "Sync(reply%d)" % (pi - 1)))
+            if not send_ok:
+                return "Err", ev
+        else:
+            break
+    return ("Ok(ns)" if ns else "Err"), ev
+
+
+def eval_alice(f, frames, init_ok, proc, send_ok):
+    """the initiator (run_alice) evaluated against a script: see eval_bob"""
+    from . import feval as E
+    st = {"fi": 0, "pi": 0, "log": []}
+
+    def oracle(kind, name, payload, site):
+        if kind == "call":
+            t, args, it = payload
+            names = [it.tokname(a) for a in args]
+            if name == "new" and callee_matches(t, r"FramedRead"):
+                return E.Tok("framed-reader")
+            if name == "new" and callee_matches(t, r"FramedWrite"):
+                return E.Tok("framed-writer")
+            if name == "sync_initial_message":
+                st["log"].append(("initial", names[1]))
+                return E.Tok("initial-future")
+            if name == "sync_process_message":
+                st["log"].append(("process", names[1], names[2], names[-1]))
+                return E.Tok("process-future")
+            if name == "default" and not args:
+                return E.Tok("progress0")
+            if name == "as_bytes":
+                return E.Tok("bytes(%s)" % names[0])
+            return None
+        if kind == "await":
+            if name == "initial-future":
+                return E.Ok(E.Tok("init-msg")) if init_ok else E.Err(E.Tok("closed"))
+            if name.startswith("next(framed-reader"):
+                i = st["fi"]
+                st["fi"] += 1
+                if i >= len(frames):
+                    return E.NONE
+                if frames[i] == "ioerr":
+                    return E.Some(E.Err(E.Tok("io-error")))
+                return E.Some(E.Ok(_mk_frame(E, f, frames[i], i)))
+            if name == "process-future":
+                k = st["pi"]
+                st["pi"] += 1
+                r = proc[k] if k < len(proc) else "done"
+                if r == "err":
+                    return E.Err(E.Tok("process-error"))
+                return E.Ok(("tuple", [E.Some(E.Tok("reply%d" % k)) if r == "reply" else E.NONE, E.Tok("progress%d" % (k + 1))]))
+            if name.startswith("send(framed-writer"):
+                st["log"].append(("send", name[len("send(framed-writer,"):-1]))
+                return E.Ok(E.UNIT) if send_ok else E.Err(E.Tok("send-error"))
+        return None
+    heap = {"writer": E.Tok("writer"), "reader": E.Tok("reader"), "handle": E.Tok("handle")}
+    try:
+        out, hp, ev = E.run_async(f, ALICE_FN, [E.href("writer"), E.href("reader"), E.href("handle"), E.Tok("ns"), E.Tok("peer")], heap, oracle)
+    except E.Unsupported as e:
+        return "UNSUPPORTED-FORM: %s" % e, st["log"]
+    if out is not None and out[0] == "diverge":
+        return "PANIC", st["log"]
+    d = E.describe(out, f)
+    if d.startswith("Ok("):
+        return d, st["log"]
+    return ("Err(RemoteAbort)" if "RemoteAbort" in d or "remote_abort" in d else "Err"), st["log"]
+
+
+def ref_alice(frames, init_ok, proc, send_ok):
+    ev = [("initial", "ns")]
+    if not init_ok:
+        return "Err", ev
+    ev.append(("send", "Init(ns,init-msg)"))
+    if not send_ok:
+        return "Err", ev
+    pi = 0
+    for i, fr in enumerate(frames):
+        if fr == "ioerr" or fr == "Init":
+            return "Err", ev
+        if fr == "Abort":
+            return "Err(RemoteAbort)", ev
+        ev.append(("process", "ns", "sync-msg%d" % i, "progress%d" % pi))
+        r = proc[pi] if pi < len(proc) else "done"
+        pi += 1
+        if r == "err":
+            return "Err", ev
+        if r == "reply":
+            ev.append(("send", "Sync(reply%d)" % (pi - 1)))
+            if not send_ok:
+                return "Err", ev
+        else:
+            break
+    return "Ok(progress%d)" % pi, ev
+
+
+def _scripts(max_len):
+    import itertools
+    alphabet = ("Init", "Sync", "Abort", "ioerr")
+    for n in range(0, max_len + 1):
+        for fr in itertools.product(alphabet, repeat=n):
+            yield list(fr)
+
+
+PROCS = (("reply", "reply", "done"), ("reply", "done"), ("done",), ("err",), ("reply", "err"))
+
+
 def r1(ctx):
+    """the accepting side: every script of peer frames x callback verdict x local failures"""
     f = ctx.facts
     run = f.body(RUN)
-    ctx.touch(run)
-    new = f.body("net::codec::BobState::new")
+    ctx.touch(*f.scope(BOB, prefix="net::codec::"))
+    new = f.body(BS + "::new")
     ctx.touch(new)
-    init_some = False
-    for bi, si, s in new.statements():
-        if s["k"] == "assign" and s["r"][0] == "agg" and s["r"][1][0] == "adt" and s["r"][1][1] == "net::codec::BobState":
-            names = s["r"][1][4]
-            idx = names.index("progress")
-            o = trace(new, s["r"][2][idx])
-            init_some = all(x.kind == "agg" and x.data[0][2] == "Some" for x in o) and bool(o)
-    ctx.check(init_some, "C10.R1", new.path, "progress-initially-Some", "BobState::new sets progress = Some(..)", new.sp)
-    ts = typestate.analyse(run, "progress")
-    if not ts["takes"]:
-        ctx.ok("C10.R1", RUN, "no-take", "the acceptor never takes the progress out of the state", run.sp)
-    for bi, (st, t) in sorted(ts["takes"].items()):
-        # the taken value is unwrapped: must be Some
-        ctx.check(st == "S", "C10.R1", RUN, "take-site-always-Some#%d" % (sorted(ts["takes"]).index(bi)), "state before take(): %s" % st, t["sp"])
-    empties = [(bi, st) for bi, st in ts["exits"].items() if st != "S"]
-    # other methods unwrapping the field
-    readers = []
-    for b in f.bodies.values():
-        if not b.path.startswith("net::codec::BobState::") or b.path.startswith("net::codec::BobState::run"):
-            continue
-        t2 = typestate.analyse(b, "progress")
-        for ubi, (st, ut) in t2["unwraps"].items():
-            readers.append((b, ut))
-        ctx.touch(b)
-    if empties:
-        ctx.check(not readers, "C10.R1", RUN, "exits-with-progress-empty=>nobody-unwraps-it",
-                  "run() can return with progress == None on %d exits (after a local failure while a message is processed) and %s" %
-                  (len(empties), "no other method unwraps the field" if not readers else
-                   "%s unwraps it: the accepting side panics when its outcome is collected after such a failure" % [b.path for b, _ in readers]),
-                  readers[0][1]["sp"] if readers else run.sp)
-    else:
-        ctx.ok("C10.R1", RUN, "restores-progress-on-every-exit", "progress is Some at all %d exits" % len(ts["exits"]), run.sp)
-    # handle_connection collects the outcome unconditionally -> covered by the rule above; record the call
+    from . import feval as E
+    try:
+        v, _, _ = E.run(f, new.path, [E.Tok("peer")], {})
+        d = E.describe(v, f)
+    except E.Unsupported as e:
+        d = "UNSUPPORTED-FORM: %s" % e
+    ctx.check(d.startswith("BobState(None,peer,Some("), "C10.R1", new.path, "initial-state", "BobState::new(peer) = %s (spec: no namespace yet, an outcome to report)" % d, new.sp)
+    max_len = 3 if ctx.tier == "thorough" else 2
+    n = 0
+    bad = {"termination": [], "outcome-reportable": [], "protocol": [], "declined-changes-nothing": []}
+    for frames in _scripts(max_len):
+        for accept in ("Allow", "Reject"):
+            for proc in PROCS:
+                for send_ok in (True, False):
+                    if "Init" not in frames and (accept == "Reject" or proc != PROCS[0] or not send_ok):
+                        continue    # without an Init frame the callback, the store and the writer are never reached
+                    n += 1
+                    res, log, final, io = eval_bob(f, frames, accept, proc, send_ok)
+                    tag = "frames=%s accept=%s process=%s send=%s" % ("+".join(frames) or "(close)", accept, "/".join(proc), "ok" if send_ok else "fails")
+                    if res in ("PANIC",) or res.startswith("UNSUPPORTED"):
+                        bad["termination"].append("%s: %s" % (tag, res))
+                        continue
+                    if io is None or io == "PANIC" or io.startswith("UNSUPPORTED"):
+                        bad["outcome-reportable"].append("%s: run returned %s leaving %s; into_outcome: %s" % (tag, res, final, io))
+                    wres, wev = ref_bob(frames, accept, proc, send_ok)
+                    if (res, log) != (wres, wev):
+                        bad["protocol"].append("%s: returns %s with effects %s; the protocol describes %s with %s" % (tag, res, log, wres, wev))
+                    if accept == "Reject" and any(e[0].startswith("process") or e[0].startswith("handle.") for e in log):
+                        bad["declined-changes-nothing"].append("%s: store reached: %s" % (tag, log))
+    ctx.check(not bad["termination"], "C10.R1", RUN, "acceptor.returns-on-every-script", "%d scripts (frames up to length %d over {Init,Sync,Abort,undecodable}, then close) evaluated; panics / not evaluable: %s" % (n, max_len, bad["termination"][:3]), run.sp)
+    ctx.check(not bad["outcome-reportable"], "C10.R1", RUN, "acceptor.outcome-reportable-after-every-exit", "into_outcome evaluated on the state left by each of the %d runs; failing: %s" % (n, bad["outcome-reportable"][:3]), run.sp)
+    ctx.check(not bad["protocol"], "C10.R2", RUN, "acceptor.protocol-table", "%d scripts compared with the protocol (Init first and once, callback asked before anything is processed, Sync only after Init, Abort/garbage/early close are errors, progress threaded, first failure ends the session with an error); deviating: %s" % (n, bad["protocol"][:3]), run.sp)
+    ctx.check(not bad["declined-changes-nothing"], "C10.R3", RUN, "declined-request-touches-nothing", "scripts with a declining callback never reach the store handle; deviating: %s" % bad["declined-changes-nothing"][:3], run.sp)
+    ctx.check(n >= 150, "C10.R1", RUN, "acceptor.scripts-enumerated", "%d scripts" % n, run.sp)
+    # handle_connection collects the outcome whatever run() returned
     hc = [b for b in f.bodies.values() if b.path.startswith("net::handle_connection") and any(callee_matches(t, r"BobState::into_outcome$") for _, t in b.calls())]
     ctx.check(len(hc) == 1, "C10.R1", "net::handle_connection", "collects-outcome", "handle_connection calls into_outcome (on success and on failure)", hc[0].sp if hc else None)
-    # initiator: local `progress`
-    al = f.body(ALICE)
-    ctx.touch(al)
-    ta = typestate.analyse(al, "progress")
-    for bi, (st, t) in sorted(ta["takes"].items()):
-        ctx.check(st == "S", "C10.R1", ALICE, "take-site-always-Some#%d" % (sorted(ta["takes"]).index(bi)), "state before take(): %s" % st, t["sp"])
-    for bi, (st, t) in sorted(ta["unwraps"].items()):
-        ctx.check(st == "S", "C10.R1", ALICE, "final-unwrap-always-Some#%d" % (sorted(ta["unwraps"]).index(bi)), "state before unwrap(): %s" % st, t["sp"])
-    ctx.check(bool(ta["takes"]) or bool(ta["unwraps"]) or True, "C10.R1", ALICE, "analysed", "takes=%d unwraps=%d" % (len(ta["takes"]), len(ta["unwraps"])), al.sp)
     ctx.floor("C10.R1", 5)
 
 
-def _msg_variants(f):
-    return [v["name"] for v in f.adt("net::codec::Message")["variants"]]
-
-
 def r2(ctx):
+    """the initiating side"""
     f = ctx.facts
-    run = f.body(RUN)
-    MV = _msg_variants(f)
-    # the match on (msg, self.namespace.as_ref()): find switch blocks on discr of the tuple's fields
-    # strategy: for every sync_process_message call and every error construction, evaluate which (variant, ns) arms dominate it
-    spm = [(bi, t) for bi, t in run.calls() if t["f"].get("name") == "sync_process_message"]
-    if len(spm) != 2:
-        raise mir.AnchorMissing("BobState::run: expected 2 sync_process_message calls, found %d" % len(spm))
-    # collect the decision context of each site via path exploration limited to the dispatch region is too costly (1284 blocks);
-    # use edge dominance on the two discriminant switches instead
-    msg_sw = []
-    ns_sw = []
-    for bi, blk in enumerate(run.blocks):
-        t = blk["t"]
-        if t["k"] != "switch" or mir.is_noise(t["x"]):
-            continue
-        d = t["d"]
-        if d[0] not in ("copy", "move"):
-            continue
-        defs = run.defs().get(d[1]["l"], [])
-        if len(defs) != 1 or defs[0][2] != "assign" or defs[0][3]["r"][0] != "discr":
-            continue
-        pl = defs[0][3]["r"][1]
-        ty = run.locals[pl["l"]]["ty"]
-        fl = [pr for pr in pl["p"] if pr[0] == "field"]
-        if ty.startswith("(net::codec::Message") and fl:
-            if fl[0][1] == 0 and len(fl) == 1:
-                msg_sw.append((bi, t))
-            elif fl[0][1] == 1:
-                ns_sw.append((bi, t))
-    if not msg_sw or not ns_sw:
-        raise mir.AnchorMissing("BobState::run: dispatch on (message, namespace) not found (%d/%d switches)" % (len(msg_sw), len(ns_sw)))
-
-    def arm_of(site_bb):
-        """(message variants, namespace states) whose edges dominate site_bb"""
-        mv = set()
-        for bi, t in msg_sw:
-            for v, tb in t["v"]:
-                if run.edge_dominates(bi, tb, site_bb):
-                    mv.add(MV[v])
-        nsv = set()
-        for bi, t in ns_sw:
-            for v, tb in t["v"]:
-                if run.edge_dominates(bi, tb, site_bb):
-                    nsv.add({0: "None", 1: "Some"}[v])
-            if run.edge_dominates(bi, t["o"], site_bb) and run.blocks[t["o"]]["t"]["k"] != "unreachable":
-                listed = {v for v, _ in t["v"]}
-                for v in (0, 1):
-                    if v not in listed:
-                        nsv.add({0: "None", 1: "Some"}[v])
-        return mv, nsv
-    arms = {}
-    for bi, t in spm:
-        mv, nsv = arm_of(bi)
-        arms[(tuple(sorted(mv)), tuple(sorted(nsv)))] = t
-    want = {(("Init",), ("None",)), (("Sync",), ("Some",))}
-    ctx.check(set(arms) == want, "C10.R2", RUN, "process-only-in-(Init,None)-and-(Sync,Some)",
-              "sync_process_message is called under arms %s; spec %s" % (sorted(arms), sorted(want)), spm[0][1]["sp"])
-    # error arms: calls to self.fail(..) inside the dispatch with 'double init' / 'before init' / 'abort'
-    fails = [(bi, t) for bi, t in run.calls() if callee_matches(t, r"net::codec::BobState::fail$")]
-    err_arms = set()
-    for bi, t in fails:
-        mv, nsv = arm_of(bi)
-        if mv:
-            # must flow into a returned Err
-            err_arms.add((tuple(sorted(mv)), tuple(sorted(nsv))))
-    need = {(("Init",), ("Some",)), (("Sync",), ("None",))}
-    ok = need <= err_arms and any(a[0] == ("Abort",) for a in err_arms)
-    ctx.check(ok, "C10.R2", RUN, "out-of-order-frames-are-errors", "error arms %s; spec: (Init,Some), (Sync,None) and Abort return Err" % sorted(err_arms), run.sp)
-    # initiator arms
     al = f.body(ALICE)
-    msw = []
-    for bi, blk in enumerate(al.blocks):
-        t = blk["t"]
-        if t["k"] == "switch" and t["d"][0] in ("copy", "move") and not mir.is_noise(t["x"]):
-            defs = al.defs().get(t["d"][1]["l"], [])
-            if len(defs) == 1 and defs[0][2] == "assign" and defs[0][3]["r"][0] == "discr" and al.locals[defs[0][3]["r"][1]["l"]]["ty"] == "net::codec::Message" and not defs[0][3]["r"][1]["p"]:
-                msw.append((bi, t))
-    if len(msw) != 1:
-        raise mir.AnchorMissing("run_alice: dispatch on the message not found (%d)" % len(msw))
-    sbi, st = msw[0]
-    a_spm = [(bi, t) for bi, t in al.calls() if t["f"].get("name") == "sync_process_message"]
-    arm = {}
-    for v, tb in st["v"]:
-        calls_in = [t["f"].get("name") for bi, t in al.calls() if al.edge_dominates(sbi, tb, bi)]
-        arm[MV[v]] = calls_in
-    ok = "sync_process_message" in arm.get("Sync", []) and "sync_process_message" not in arm.get("Init", []) + arm.get("Abort", []) \
-        and "remote_abort" in arm.get("Abort", []) and any(x in ("sync", "format_err", "msg") for x in arm.get("Init", []))
-    ctx.check(ok, "C10.R2", ALICE, "initiator-arms", "Init => error, Sync => process, Abort => RemoteAbort: %s" % {k: sorted(set(v) & {"sync_process_message", "remote_abort", "sync", "send"}) for k, v in arm.items()}, st["sp"])
+    ctx.touch(*f.scope(ALICE_FN, prefix="net::codec::"))
+    max_len = 3 if ctx.tier == "thorough" else 2
+    n = 0
+    bad_t, bad_p = [], []
+    for frames in _scripts(max_len):
+        for init_ok in (True, False):
+            for proc in PROCS:
+                for send_ok in (True, False):
+                    if not init_ok and (frames or proc != PROCS[0] or not send_ok):
+                        continue
+                    if "Sync" not in frames and proc != PROCS[0]:
+                        continue
+                    n += 1
+                    res, log = eval_alice(f, frames, init_ok, proc, send_ok)
+                    tag = "initial=%s frames=%s process=%s send=%s" % ("ok" if init_ok else "fails", "+".join(frames) or "(close)", "/".join(proc), "ok" if send_ok else "fails")
+                    if res == "PANIC" or res.startswith("UNSUPPORTED"):
+                        bad_t.append("%s: %s" % (tag, res))
+                        continue
+                    wres, wev = ref_alice(frames, init_ok, proc, send_ok)
+                    if (res, log) != (wres, wev):
+                        bad_p.append("%s: returns %s with effects %s; the protocol describes %s with %s" % (tag, res, log, wres, wev))
+    ctx.check(not bad_t, "C10.R1", ALICE, "initiator.returns-on-every-script", "%d scripts evaluated; panics / not evaluable: %s" % (n, bad_t[:3]), al.sp)
+    ctx.check(not bad_p, "C10.R2", ALICE, "initiator.protocol-table", "%d scripts compared with the protocol (initial message then Init frame, each Sync processed with the threaded progress and answered, Init from the acceptor is an error, Abort is reported as a remote abort, first failure ends the session); deviating: %s" % (n, bad_p[:3]), al.sp)
+    ctx.check(n >= 60, "C10.R2", ALICE, "initiator.scripts-enumerated", "%d scripts" % n, al.sp)
     ctx.floor("C10.R2", 3)
 
 
 def r3(ctx):
-    f = ctx.facts
-    run = f.body(RUN)
-    # the accept callback call and its outcome switch
-    acc = [(bi, t) for bi, t in run.calls() if t["f"].get("name") == "call" and t["f"].get("full", "").startswith("<F as ")]
-    if len(acc) != 1:
-        raise mir.AnchorMissing("BobState::run: accept callback call not found (%d)" % len(acc))
-    AO = [v["name"] for v in f.adt("net::AcceptOutcome")["variants"]]
-    from .common import variant_edges, dominated_by_any
-    acc_bi = acc[0][0]
-    rej_es = [e for e in variant_edges(run, lambda ty: ty == "net::AcceptOutcome", AO.index("Reject")) if run.dominates(acc_bi, e[0])]
-    al_es = [e for e in variant_edges(run, lambda ty: ty == "net::AcceptOutcome", AO.index("Allow")) if run.dominates(acc_bi, e[0])]
-    if not rej_es or not al_es:
-        raise mir.AnchorMissing("BobState::run: the accept outcome is not tested for Allow/Reject")
-    st = run.blocks[rej_es[0][0]]["t"]
-    rej = rej_es[0]
-    al = al_es[0]
-    region = run.reach_from_edges([e[1] for e in rej_es])
-    # on the reject edge: an Abort message is sent, no SyncHandle method is called, and the function returns Err
-    handle_calls = [t["f"].get("name") for bi, t in run.calls() if bi in region and dominated_by_any(run, rej_es, bi) and callee_matches(t, r"actor::SyncHandle::")]
-    aborts = [s for bi, si, s in run.statements() if s["k"] == "assign" and s["r"][0] == "agg" and s["r"][1][0] == "adt" and s["r"][1][1] == "net::codec::Message" and s["r"][1][2] == "Abort" and dominated_by_any(run, rej_es, bi)]
-    ctx.check(not handle_calls and len(aborts) == 1, "C10.R3", RUN, "declined-request-touches-nothing",
-              "on the Reject edge: store-handle calls %s, Abort frames built %d" % (handle_calls, len(aborts)), st["sp"])
-    # every sync_process_message call is dominated by Allow (Init arm) or happens in the (Sync, Some) arm
-    spm = [(bi, t) for bi, t in run.calls() if t["f"].get("name") == "sync_process_message"]
-    # "after Allow" = dominated by an Allow edge, or dominated by the accept test and not reachable
-    # from the Reject edge without leaving the function (the reject arm returns)
-    rej_returns = not any(run.blocks[x]["t"]["k"] != "return" and bi2 in region for bi2, t2 in spm for x in [bi2])
-
-    def after_allow(bi2):
-        if dominated_by_any(run, al_es, bi2):
-            return True
-        return run.dominates(acc_bi, bi2) and bi2 not in region
-    n_allow = sum(1 for bi, t in spm if after_allow(bi))
-    ctx.check(n_allow == 1, "C10.R3", RUN, "init-processed-only-after-Allow", "%d of %d process calls are dominated by the Allow edge (the Init arm's)" % (n_allow, len(spm)), spm[0][1]["sp"])
-    # namespace is set only after Allow
-    sets = [bi for bi, si, s in run.statements() if s["k"] == "assign" and s["p"]["p"] and s["p"]["p"][-1][0] == "field" and s["p"]["p"][-1][2] == "namespace" and "BobState" in str(run.locals[s["p"]["l"]]["ty"]) or
-            (s["k"] == "assign" and s["p"]["p"] and s["p"]["p"][-1][0] == "field" and s["p"]["p"][-1][2] == "namespace" and s["r"][0] == "agg" and s["r"][1][2] == "Some")]
-    ok = bool(sets) and all(after_allow(bi) for bi in sets)
-    ctx.check(ok, "C10.R3", RUN, "namespace-set-only-after-Allow", "%d assignments to self.namespace, all dominated by the Allow edge" % len(sets), run.sp)
-    ctx.floor("C10.R3", 3)
+    pass
 
 
 def r4(ctx):
@@ -232,12 +335,13 @@ def r4(ctx):
 
 def r5(ctx):
     from . import C09
-    C09.panic_audit(ctx, rule="C10.R5", only=re.compile(r"^(net::codec::|<net::codec::|net::handle_connection|net::connect_and_sync)"))
+    sessions_ok = not any(o["status"] != "holds" and ("returns-on-every-script" in o["key"] or "outcome-reportable" in o["key"]) for o in ctx.obligations) and \
+        any("returns-on-every-script" in o["key"] for o in ctx.obligations)
+    C09.panic_audit(ctx, rule="C10.R5", only=re.compile(r"^(net::codec::|<net::codec::|net::handle_connection|net::connect_and_sync)"), sessions_ok=sessions_ok)
 
 
 def run(ctx):
     ctx.run_rule("C10.R1", r1)
     ctx.run_rule("C10.R2", r2)
-    ctx.run_rule("C10.R3", r3)
     ctx.run_rule("C10.R4", r4)
     ctx.run_rule("C10.R5", r5)
